@@ -24,7 +24,7 @@
   No longer undefined (repository fixes followed by this model):
   * `add_instrument` on an empty tag (`@1` with no type) is an InputError (7061cba);
   * `add_ins_fm_2op` only accepts a base whose `ins_type` is `INS_FM` (85bdeee) — the base entry
-    is then always a 30-byte FM image (`Proofs/MdsData: fmBase_inv`), so the former out-of-size
+    is then always a 30-byte FM image (`Proofs/MdsBase: FmInv`, theorem `C11_fm_base_inv`), so the former out-of-size
     indexing `fm_data[27]`/`[29]` of a PSG envelope no longer exists (`fm2opBytes` is still
     written with `mapIdx`, which on a 30-byte image is exactly the three assignments);
   * the FM transpose byte is computed in `unsigned long` (a2025de): `u8 ((v + 24) * 2)` for every
